@@ -101,6 +101,16 @@ def f_circuit(alg, n):
         yield alg, [], b
 
 
+def f_circuit_perm(alg, n):
+    """Every permutation of 0..n-1 as an instantiated successor vector (the circuit constraints are decisive on
+    permutations, C06), and every one-step relaxation of it (one successor with two values)."""
+    for p in itertools.permutations(range(n)):
+        yield alg, [], tuple((v, v) for v in p)
+        for i in range(n):
+            if p[i] + 1 < n:
+                yield alg, [], tuple((v, v + 1) if k == i else (v, v) for k, v in enumerate(p))
+
+
 def f_relation(n, r, lo, hi):
     tuples = list(itertools.product(range(lo, hi + 1), repeat=n))
     for rows in itertools.product(tuples, repeat=r):
@@ -167,6 +177,8 @@ for _a in ("max_eq", "max_leq", "min_eq", "min_geq"):
 for _a in ("no_sub_cycle", "scc"):
     for _n in (1, 2, 3, 4):
         _reg(f"{_a}{_n}", f_circuit, _a, _n)
+    for _n in (5, 6, 7):
+        _reg(f"{_a}_perm{_n}", f_circuit_perm, _a, _n)
 _reg("relation1_2", f_relation, 1, 2, 0, 2)
 _reg("relation2_1", f_relation, 2, 1, 0, 2)
 _reg("relation2_2", f_relation, 2, 2, 0, 2)
@@ -176,7 +188,8 @@ _reg("dummy", f_dummy)
 
 
 # families small enough and structured enough to be run completely in the quick tier as well
-FULL_IN_QUICK = {"lex8", "lex4", "lex4n", "alldifferent4", "alldifferent5"}
+FULL_IN_QUICK = {"lex8", "lex4", "lex4n", "alldifferent4", "alldifferent5",
+                 "no_sub_cycle_perm5", "no_sub_cycle_perm6", "scc_perm5", "scc_perm6"}
 
 
 def family(name):
